@@ -192,6 +192,12 @@ def generate(tier, seed, stats):
     # destination contents
     big = [(5000, 1, 1 << 20, "inmem", "inmem"), (4500, 1000, 4096 * 44 + 1, "inmem", "wal"), (3000, (1 << 32) + 5, 20000, "wal", "inmem"),
            (4097, 7, 1 << 22, "inmem", "inmem")][:(2, 4)[0 if tier == "quick" else 1]]
+    # batchBytes at the edges of int ("copy everything in one append"): the largest value there is, just below it, around
+    # 2^31 and 2^32 (arithmetic on the batch size must not overflow)
+    MAXINT = (1 << 63) - 1
+    big += [(40, 1, MAXINT, "inmem", "inmem"), (40, 3, MAXINT - 7, "inmem", "wal"), (12, 1, MAXINT - 31, "wal", "inmem"),
+            (40, 1, (1 << 31) - 1, "inmem", "inmem"), (40, 1, 1 << 31, "inmem", "inmem"), (40, 1, (1 << 32) + 3, "inmem", "inmem"),
+            (40, 1, 1 << 62, "inmem", "inmem")]
     for n, first, bb, src, dst in big:
         out.append({"scen": {"sid": len(out), "op": "logs", "n": n, "first": first, "sizes": [12 + (j % 5) for j in range(n)],
                              "kind": "filled", "bb": bb, "xk": 0, "xi": 0, "src": src, "dst": dst, "prog": "buf", "call": "none",
